@@ -409,6 +409,134 @@ let run_case (oc : out_channel) (c : case) : unit =
       | other -> "unknown-step " ^ other in
     Printf.fprintf oc "%d %s\n" si obs) c.steps
 
+
+(* ---------- own channel (C19) ---------- *)
+type okind = KNode of nat | KEdge of (n edge) | KPath of (n edge) list | KNodes of nat list | KGraph of gr
+
+let run_own_case (oc : out_channel) (c : case) : unit =
+  Printf.fprintf oc "case %s\n" c.name;
+  let directed = (c.cls = 'D') in
+  let step = if directed then step_d keqb else step_u keqb in
+  let st : (n, z, n) ostate ref = ref o_init in
+  let kinds : (int, okind) Hashtbl.t = Hashtbl.create 16 in
+  let val_of u = match valof (!st).o_heap u with Some v -> int_of_z v | None -> 0 in
+  let rel_str (l : nat list) : string =
+    " | rel" ^ String.concat "" (List.map (fun v -> " " ^ string_of_int v) (List.sort compare (List.map val_of l))) in
+  let node_in s = match Hashtbl.find_opt kinds s with Some (KNode u) -> u | _ -> failwith "slot does not hold a node" in
+  let put s owned kind = let (st', rel) = put_slot !st (nat_of_int s) owned in st := st'; Hashtbl.replace kinds s kind; rel in
+  let released u = is_released !st u in
+  let kv u = Printf.sprintf "%s:%d" (key_str (!st).o_heap u) (val_of u) in
+  let deg u = int_of_nat (out_degree (!st).o_heap u) + int_of_nat (in_degree (!st).o_heap u) in
+  let adjl u = if directed then (!st).o_heap.outs u else adj_u (!st).o_heap u in
+  let d = if directed then DOut else DAdj in
+  let recorder = mk_cb step false (fun _ _ _ -> true) [] in
+  let trace_dangling (c : n cbst) = List.exists (fun ((_, t), _) -> released t) c.c_trace in
+  let set_heap_ h = st := { !st with o_heap = h } in
+  List.iteri (fun si stp ->
+    let body, rel =
+      try
+      match stp.(0) with
+      | "onew" ->
+          let s = ios stp.(1) in
+          let u = size (!st).o_heap in
+          let (st', rel) = o_new !st (nat_of_int s) (n_of_int (ios stp.(2))) (z_of_int (ios stp.(3))) in
+          st := st'; Hashtbl.replace kinds s (KNode u); ("ok", rel)
+      | "oclone" -> let u = node_in (ios stp.(2)) in ("ok", put (ios stp.(1)) [u] (KNode u))
+      | "ocon" ->
+          let (h1, _) = step (!st).o_heap (OConnect (node_in (ios stp.(1)), node_in (ios stp.(2)), n_of_int (ios stp.(3)))) in
+          set_heap_ h1; ("ok", [])
+      | "otry" ->
+          let (h1, r) = step (!st).o_heap (OTryConnect (node_in (ios stp.(1)), node_in (ios stp.(2)), n_of_int (ios stp.(3)))) in
+          set_heap_ h1; (outcome_str r, [])
+      | "odis" ->
+          let (h1, r) = step (!st).o_heap (ODisconnect (node_in (ios stp.(1)), n_of_int (ios stp.(2)))) in
+          set_heap_ h1; (outcome_str r, [])
+      | "oiso" ->
+          let (h1, r) = step (!st).o_heap (OIsolate (node_in (ios stp.(1)))) in
+          set_heap_ h1; (outcome_str r, [])
+      | "odrop" ->
+          let s = ios stp.(1) in
+          let (st', rel) = drop_slot !st (nat_of_int s) in
+          st := st'; Hashtbl.remove kinds s; ("ok", rel)
+      | "oedge" ->
+          let u = node_in (ios stp.(2)) and pos = ios stp.(3) in
+          let l = adjl u in
+          let rec firstn k = function [] -> [] | x :: r -> if k <= 0 then [] else x :: firstn (k - 1) r in
+          let seen = firstn (pos + 1) l in
+          if List.exists (fun (v, _) -> released v) seen then ("panic", [])
+          else (match List.nth_opt l pos with
+                | Some (v, e) ->
+                    let rel = put (ios stp.(1)) [u; v] (KEdge ((u, v), e)) in
+                    ("edge " ^ fmt_edge (!st).o_heap u v e, rel)
+                | None -> ("none", []))
+      | "opath" | "ofind" ->
+          let u = node_in (ios stp.(2)) and k = n_of_int (ios stp.(3)) in
+          let kind = (match stp.(4) with "bfs" -> KBfs | "dfs" -> KDfs | _ -> KPfsMin) in
+          let (stt, r) = search_path keqb recorder Z.leb kind d big_fuel (!st).o_heap cb0 u (Some k) false in
+          if trace_dangling stt.s_cb then ("panic", [])
+          else (match r with
+                | RPath p ->
+                    if stp.(0) = "opath" then
+                      let rel = put (ios stp.(1)) (path_owns p) (KPath p) in
+                      ("path " ^ String.concat "" (List.map (fun ((a, b), e) -> fmt_edge (!st).o_heap a b e) p), rel)
+                    else
+                      let v = (match List.rev p with ((_, b), _) :: _ -> b | [] -> u) in
+                      let rel = put (ios stp.(1)) [v] (KNode v) in
+                      ("node " ^ key_str (!st).o_heap v, rel)
+                | RNone -> ("none", [])
+                | _ -> ("panic", []))
+      | "onodes" ->
+          let u = node_in (ios stp.(2)) in
+          let post = (stp.(3) = "post") in
+          (match order_nodes keqb recorder d post big_fuel (!st).o_heap cb0 u with
+           | (stt, Some l) ->
+               if trace_dangling stt.s_cb then ("panic", [])
+               else let rel = put (ios stp.(1)) l (KNodes l) in
+                    ("nodes " ^ keys_of (!st).o_heap l, rel)
+           | (_, None) -> ("fuel", []))
+      | "ogra" -> ("ok", put (ios stp.(1)) [] (KGraph []))
+      | "ogins" ->
+          let gs = ios stp.(1) in
+          let u = node_in (ios stp.(2)) in
+          (match Hashtbl.find_opt kinds gs with
+           | Some (KGraph g) ->
+               let (g', b) = g_insert keqb (!st).o_heap g u in
+               if b then begin st := grow_slot !st (nat_of_int gs) u; Hashtbl.replace kinds gs (KGraph g') end;
+               (Printf.sprintf "ok %d" (b2i b), [])
+           | _ -> failwith "not a graph")
+      | "ogget" ->
+          (match Hashtbl.find_opt kinds (ios stp.(2)) with
+           | Some (KGraph g) ->
+               (match g_get keqb g (n_of_int (ios stp.(3))) with
+                | Some u -> let rel = put (ios stp.(1)) [u] (KNode u) in ("node " ^ key_str (!st).o_heap u, rel)
+                | None -> ("none", []))
+           | _ -> failwith "not a graph")
+      | "ogrem" ->
+          let gs = ios stp.(2) in
+          (match Hashtbl.find_opt kinds gs with
+           | Some (KGraph g) ->
+               let (g', r) = g_remove keqb g (n_of_int (ios stp.(3))) in
+               (match r with
+                | Some u ->
+                    (* the node moves from the container into the slot: first the slot owns it, then the container lets go *)
+                    let rel = put (ios stp.(1)) [u] (KNode u) in
+                    st := { !st with o_objs = List.map (fun (s, l) -> if int_of_nat s = gs then (s, remove_one u l) else (s, l)) (!st).o_objs };
+                    Hashtbl.replace kinds gs (KGraph g');
+                    ("node " ^ key_str (!st).o_heap u, rel)
+                | None -> ("none", []))
+           | _ -> failwith "not a graph")
+      | "ouse" ->
+          ((match Hashtbl.find_opt kinds (ios stp.(1)) with
+            | Some (KNode u) -> Printf.sprintf "node %s deg %d" (kv u) (deg u)
+            | Some (KEdge ((a, b), e)) -> Printf.sprintf "edge %s %s %d deg %d %d" (kv a) (kv b) (int_of_n e) (deg a) (deg b)
+            | Some (KPath p) -> "path" ^ String.concat "" (List.map (fun u -> " " ^ kv u) (path_nodes p))
+            | Some (KNodes l) -> "nodes " ^ String.concat " " (List.map kv l)
+            | Some (KGraph g) -> Printf.sprintf "graph %d" (List.length g)
+            | None -> "empty"), [])
+      | other -> ("unknown-step " ^ other, [])
+      with Failure _ -> ("panic", []) in
+    Printf.fprintf oc "%d %s%s\n" si body (rel_str rel)) c.steps
+
 let () =
   if Array.length Sys.argv < 4 then (prerr_endline "usage: driver <D|U> <casefile> <outfile>"; exit 2);
   let cls = Sys.argv.(1).[0] in
@@ -416,5 +544,5 @@ let () =
   let cases = parse_cases ic in
   close_in ic;
   let oc = open_out Sys.argv.(3) in
-  List.iteri (fun ci c -> if c.cls = cls then begin run_case oc c; Printf.fprintf oc "end %d\n" ci end) cases;
+  List.iteri (fun ci c -> if c.cls = cls then begin (if String.length c.name >= 3 && String.sub c.name 0 3 = "own" then run_own_case oc c else run_case oc c); Printf.fprintf oc "end %d\n" ci end) cases;
   close_out oc
